@@ -36,7 +36,12 @@ def intFmtOf : String → Option IntFmt
 mutual
 partial def schemaOf (j : Json) : Except String S := do
   match (← (← field j "k").getStr?) with
-  | "str" => pure .str
+  | "str" =>
+    match fieldD j "f" Json.null with
+    | .str "float" => pure (.strFloat true)
+    | .str "double" => pure (.strFloat false)
+    | .str f => pure (match intFmtOf f with | some i => .strNum i | none => .str)
+    | _ => pure .str
   | "int" => pure (.int (match fieldD j "f" Json.null with | .str f => intFmtOf f | _ => none))
   | "num" => pure (.num (fieldD j "f32" (Json.bool false) == Json.bool true))
   | "bool" => pure .bool
